@@ -1,6 +1,8 @@
 // C09 harness: runs Poly1FactorDom / Poly1Dom (sqrfree, cyclotomic) of /repo's current sources.
 // One case per line:   <op> <field> <stream> <args...>
-//   field  : "p" (prime, Modular<int32_t>)  or  "q:p:k" (GFqDom<int64_t>(p,k), elements = p-adic integers in [0,q))
+//   field  : "p" (prime, Modular<int32_t>)  or  "q:p:k[:m]" (GFqDom<int64_t>(p,k), elements = p-adic integers in [0,q))
+//            or "m64:p" (Modular<int64_t>, p <= 2^32), "mu64:p" (Modular<uint64_t,__uint128_t>, p < 2^64),
+//            "mI:p" (Modular<Integer>, any p), "md:p" (Modular<double>, p < 94906266)
 //   stream : comma separated uint64 values returned one after the other by the random generator the
 //            factoring domain is instantiated with ("-" = empty);  an exhausted stream ends the call with EXHAUSTED
 //   poly   : c0,c1,...,cn  (low degree first)   "-" = the zero polynomial (size 0)
@@ -42,6 +44,15 @@ static std::vector<std::string> split(const std::string& s, char c) {
     r.push_back(cur); return r;
 }
 
+// element text I/O: machine-word domains through int64_t (GFqDom: p-adic integers), the others through Integer
+template <class Dom> inline void rd_el(const Dom& F, typename Dom::Element& e, const std::string& s) { F.init(e, (int64_t)strtoll(s.c_str(), 0, 10)); }
+template <class Dom> inline std::string wr_el(const Dom& F, const typename Dom::Element& e) { int64_t v; F.convert(v, e); std::ostringstream o; o << v; return o.str(); }
+inline void rd_el(const Modular<Integer>& F, Integer& e, const std::string& s) { Integer v(s.c_str()); F.init(e, v); }
+inline std::string wr_el(const Modular<Integer>& F, const Integer& e) { Integer v; F.convert(v, e); std::ostringstream o; o << v; return o.str(); }
+typedef Modular<uint64_t, __uint128_t> ModU64;
+inline void rd_el(const ModU64& F, uint64_t& e, const std::string& s) { F.init(e, (uint64_t)strtoull(s.c_str(), 0, 10)); }
+inline std::string wr_el(const ModU64& F, const uint64_t& e) { uint64_t v; F.convert(v, e); std::ostringstream o; o << v; return o.str(); }
+
 template <class Dom> struct Run {
     typedef Poly1FactorDom<Dom, Dense, Replay> FD_t;
     typedef typename FD_t::Element Poly;
@@ -53,13 +64,13 @@ template <class Dom> struct Run {
         Poly P; if (s == "-") { P.resize(0); return P; }
         std::vector<std::string> t = split(s, ',');
         P.resize(t.size());
-        for (size_t i = 0; i < t.size(); ++i) F.init(P[i], (int64_t)strtoll(t[i].c_str(), 0, 10));
+        for (size_t i = 0; i < t.size(); ++i) rd_el(F, P[i], t[i]);
         return P;      // deliberately NOT normalised: callers may pass leading zeros
     }
     std::string wr(const Poly& P) {
         if (P.size() == 0) return "-";
         std::ostringstream o;
-        for (size_t i = 0; i < P.size(); ++i) { int64_t v; F.convert(v, P[i]); if (i) o << ","; o << v; }
+        for (size_t i = 0; i < P.size(); ++i) { if (i) o << ","; o << wr_el(F, P[i]); }
         return o.str();
     }
     template <class C> std::string wrl(const C& L) {
@@ -115,7 +126,12 @@ template <class Dom> struct Run {
         else if (op == "randproot") { Poly P, R; FD.random_prim_root(P, R, Degree(atol(a[0].c_str()))); o << wr(P) << " " << wr(R); }
         else if (op == "cyclo") { Poly P; FD.cyclotomic(P, (uint64_t)atol(a[0].c_str())); o << wr(P); }
         else if (op == "pcomp") { Poly W; FD.power_compose(W, rd(a[0]), (uint64_t)atol(a[1].c_str())); o << wr(W); }
-        else if (op == "fieldpoly") { o << F.irreducible() << " " << F.characteristic() << " " << F.exponent(); }
+        else if (op == "fieldinfo") { Integer c, q; F.characteristic(c); F.cardinality(q); o << Integer(F.residu()) << " " << c << " " << q; }
+        else if (op == "diff") { Poly D; FD.diff(D, rd(a[0])); o << wr(D); }
+        else if (op == "diff.in") { Poly D = rd(a[0]); FD.diff(D, D); o << wr(D); }                 // P and Q the same object
+        else if (op == "powmod") { Poly W; Integer e(a[1].c_str()); FD.powmod(W, rd(a[0]), e, rd(a[2])); o << wr(W); }
+        else if (op == "powmod.in") { Poly W = rd(a[2]); Integer e(a[1].c_str()); FD.powmod(W, rd(a[0]), e, W); o << wr(W); }   // W and U the same object
+        else if (op == "gcd") { Poly G; FD.gcd(G, rd(a[0]), rd(a[1])); o << wr(G); }
         else o << "UNKNOWN-OP";
         return o.str();
     }
@@ -158,6 +174,18 @@ int main() {
                     GFqDom<int64_t> F(P, e);
                     Run<GFqDom<int64_t> > R(F); out = R.go(op, a);
                 }
+            } else if (fld.compare(0, 4, "m64:") == 0) {
+                Modular<int64_t> F((int64_t)strtoll(fld.c_str() + 4, 0, 10));
+                Run<Modular<int64_t> > R(F); out = R.go(op, a);
+            } else if (fld.compare(0, 5, "mu64:") == 0) {
+                ModU64 F((uint64_t)strtoull(fld.c_str() + 5, 0, 10));
+                Run<ModU64> R(F); out = R.go(op, a);
+            } else if (fld.compare(0, 3, "mI:") == 0) {
+                Modular<Integer> F(Integer(fld.c_str() + 3));
+                Run<Modular<Integer> > R(F); out = R.go(op, a);
+            } else if (fld.compare(0, 3, "md:") == 0) {
+                Modular<double> F((double)atol(fld.c_str() + 3));
+                Run<Modular<double> > R(F); out = R.go(op, a);
             } else {
                 ModP F((int32_t)atol(fld.c_str()));
                 Run<ModP> R(F); out = R.go(op, a);
